@@ -117,6 +117,8 @@ def _targets(tier):
         if n <= 2 or not q:
             T.append(dict(shapes=v3[:n], container=True))
     T.append(dict(shapes=c2, container=True))
+    T.append(dict(shapes=[c3[0], c3[0], c3[0]], container=True, pitch=VECS[3][0]))
+    T.append(dict(shapes=[s3[0], s3[0]], container=True, pitch=VECS[3][1]))
     if not q:
         T.append(dict(shapes=list(reversed(c3)), container=True))
         T.append(dict(shapes=list(reversed(s3)), container=True))
@@ -281,6 +283,9 @@ def _build_target(tg, seed):
     for k, d in enumerate(tg['shapes']):
         pts = A.make_net(d['sizes'], d['dim'], 'coded', seed)
         off = OFFSETS[k % 3][:d['dim']]
+        if tg.get('pitch'):
+            # element k is element 0 shifted k times by the pitch vector (a row of copies: B == T(A) for the translation T)
+            off = [o + k * v for o, v in zip(OFFSETS[0][:d['dim']], tg['pitch'])]
         d2 = dict(d, points=[[c + o for c, o in zip(p, off)] for p in pts])
         elems.append(S.build(d2, seed))
     if not tg['container']:
